@@ -13,17 +13,15 @@ import SquidModel.Acl.IntRangeLemmas
 namespace SquidModel.C43
 open SquidModel.Acl.IntRange
 
-/-- **Main statement.** Any list of well-formed values and ranges is accepted, and `match(i)` — for every `int` `i` below
-INT_MAX — terminates without undefined behaviour and answers `true` exactly when `i` lies in the union of the listed ranges. -/
+/-- **Main statement.** Any list of well-formed values and ranges is accepted, and `match(i)` — for every `int` `i`, INT_MAX and
+negative numbers included — answers `true` exactly when `i` lies in the union of the listed ranges. (`match` performs no
+arithmetic on `i` since squid commit 21bf4c4, so there is no undefined behaviour to exclude.) -/
 theorem match_iff_union (ps : List Param) (hv : ∀ p ∈ ps, p.Valid) :
     ∃ rs, parse (ps.map Param.token) = .ok rs ∧
-      ∀ i : Int, INT_MIN ≤ i → i < INT_MAX →
-        ∃ b, matchInt rs i = some b ∧ (b = true ↔ ∃ p ∈ ps, (p.lo : Int) ≤ i ∧ i ≤ (p.hi : Int)) := by
+      ∀ i : Int, matchInt rs i = true ↔ ∃ p ∈ ps, (p.lo : Int) ≤ i ∧ i ≤ (p.hi : Int) := by
   refine ⟨_, parse_params ps hv, ?_⟩
-  intro i hlo hhi
-  obtain ⟨b, hb, hiff⟩ := matchInt_spec (ps.map fun p => (⟨p.lo, (p.hi : Int) + 1⟩ : Range)) i hlo hhi
-  refine ⟨b, hb, ?_⟩
-  rw [hiff]
+  intro i
+  rw [matchInt_spec]
   constructor
   · rintro ⟨r, hr, h1, h2⟩
     obtain ⟨p, hp, rfl⟩ := List.mem_map.mp hr
@@ -31,33 +29,27 @@ theorem match_iff_union (ps : List Param) (hv : ∀ p ∈ ps, p.Valid) :
   · rintro ⟨p, hp, h1, h2⟩
     exact ⟨_, List.mem_map.mpr ⟨p, hp, rfl⟩, h1, by simp only; omega⟩
 
-/-- The full-strength statement over all of `int` is false of the real code: `match(INT_MAX)` evaluates `i+1` in `int`
-(IntRange.cc, `RangeType const toFind(i, i+1)`), which is undefined behaviour for every configured list.
-(The two users of the class, `port` and `localport`, only pass 16-bit port numbers.) -/
-theorem match_intmax_counterexample : matchInt [⟨80, 81⟩] INT_MAX = none := by decide
-
-theorem match_intmax_undefined (rs : List Range) : matchInt rs INT_MAX = none := matchInt_intMax rs
+/- Historical note (before squid commit 21bf4c4): `match(int i)` built `Range<int>(i, i+1)`; for `i = INT_MAX` that was a signed
+   overflow (finding C43-match-intmax-overflow, status fixed; the witness `a 3830 2147483647` stays in the corpus as a regression
+   case that must now answer `0`). -/
 
 /-- Whatever spelling was accepted (including the lax ones `strtoll` admits: sign, C white space): every stored range is
 non-empty and inside the port space, there is one per parameter, and `match` is exactly membership in the stored ranges. -/
 theorem accepted_ranges_sound (toks : List Bytes) (rs : List Range) (h : parse toks = .ok rs) :
     rs.length = toks.length ∧
     (∀ r ∈ rs, 0 ≤ r.start ∧ r.start < r.stop ∧ r.stop ≤ 65536) ∧
-    ∀ i : Int, INT_MIN ≤ i → i < INT_MAX → ∃ b, matchInt rs i = some b ∧ (b = true ↔ ∃ r ∈ rs, r.start ≤ i ∧ i < r.stop) :=
-  ⟨(parse_ok_iff.mp h).1.symm, parse_bounds h, fun i hlo hhi => matchInt_spec rs i hlo hhi⟩
+    ∀ i : Int, matchInt rs i = true ↔ ∃ r ∈ rs, r.start ≤ i ∧ i < r.stop :=
+  ⟨(parse_ok_iff.mp h).1.symm, parse_bounds h, fun i => matchInt_spec rs i⟩
 
 /-- Nothing outside 0..65535 ever matches an accepted list. -/
 theorem no_match_outside_port_space (toks : List Bytes) (rs : List Range) (h : parse toks = .ok rs)
-    (i : Int) (hlo : INT_MIN ≤ i) (hhi : i < INT_MAX) (hout : i < 0 ∨ 65535 < i) : matchInt rs i = some false := by
-  obtain ⟨b, hb, hiff⟩ := matchInt_spec rs i hlo hhi
-  have hb' : b = false := by
-    cases b with
-    | false => rfl
-    | true =>
-      obtain ⟨r, hr, h1, h2⟩ := hiff.mp rfl
-      have := parse_bounds h r hr
-      omega
-  rw [hb, hb']
+    (i : Int) (hout : i < 0 ∨ 65535 < i) : matchInt rs i = false := by
+  cases hb : matchInt rs i with
+  | false => rfl
+  | true =>
+    obtain ⟨r, hr, h1, h2⟩ := (matchInt_spec rs i).mp hb
+    have := parse_bounds h r hr
+    omega
 
 /-- One refused parameter refuses the whole list (squid calls `self_destruct()`), … -/
 theorem invalid_parameter_rejects_list (toks : List Bytes) (t : Bytes) (hm : t ∈ toks) (e : Reject)
@@ -90,11 +82,12 @@ example : (⟨[52, 52, 51], some [53, 48, 48]⟩ : Param).Valid := by decide
 example : ¬ (⟨[53], some [52]⟩ : Param).Valid := by decide
 example : (⟨[52, 52, 51], some [53, 48, 48]⟩ : Param).token = [52, 52, 51, 45, 53, 48, 48] := by decide
 example : parse [[56, 48], [52, 52, 51, 45, 53, 48, 48], [49, 45, 49]] = .ok [⟨80, 81⟩, ⟨443, 501⟩, ⟨1, 2⟩] := by decide
-example : matchInt [⟨80, 81⟩, ⟨443, 501⟩, ⟨1, 2⟩] 500 = some true := by decide
-example : matchInt [⟨80, 81⟩, ⟨443, 501⟩, ⟨1, 2⟩] 501 = some false := by decide
-example : matchInt [] 0 = some false := by decide
+example : matchInt [⟨80, 81⟩, ⟨443, 501⟩, ⟨1, 2⟩] 500 = true := by decide
+example : matchInt [⟨80, 81⟩, ⟨443, 501⟩, ⟨1, 2⟩] 501 = false := by decide
+example : matchInt [] 0 = false := by decide
+example : matchInt [⟨80, 81⟩] 2147483647 = false := by decide
 -- overlapping and unordered lists
-example : matchInt [⟨10, 21⟩, ⟨5, 16⟩, ⟨10, 21⟩] 7 = some true := by decide
+example : matchInt [⟨10, 21⟩, ⟨5, 16⟩, ⟨10, 21⟩] 7 = true := by decide
 -- lax spellings the real code accepts (covered by `accepted_ranges_sound`, not by `match_iff_union`): "+5", "\v7"
 example : parse [[43, 53]] = .ok [⟨5, 6⟩] := by decide
 example : parse [[11, 55]] = .ok [⟨7, 8⟩] := by decide
